@@ -130,3 +130,264 @@ Example C01_ex_first_minimum :
   view (merge (tag_srcs [[7]; [7]; [7]])) = [(0, 0, 7); (1, 0, 7); (2, 0, 7)].
 Proof. exact ex_first_minimum. Qed.
 Print Assumptions C01_ex_first_minimum.
+
+(* ==========================================================================================
+   WHOLE-PROGRAM COMPOSITION (work package H, order part; the schedule part is in Props/C06.v).
+   Model/Program.v: [program_m] = the code-level composition (block-wise reader at block size bs ->
+   search loop -> worker datums -> coordinator under a schedule -> printer variant + 2056-byte
+   buffer -> separator / supplied newline / summary accounting); [program_spec] = stable sort by
+   instant of the windowed spec groups of every file, canonically decorated, totals as measures of
+   that output.  The component theorems of C02 C03 C01 C06 C13 C19 are used, not re-proved.
+   ========================================================================================== *)
+From Coq Require Import NArith.
+From S4.Base Require Bytes Chunk.
+From S4.Spec Require LinesSpec WindowSpec.
+From S4.Model Require Lines Syslines Search Coord Print Summary Gate.
+From S4.Model Require Import Program.
+From S4.Proofs Require SyslinesProofs PrintStrip SummaryProofs.
+From S4.Proofs Require Import ProgramProofs ProgramExamples.
+
+(* THE composition theorem: for every timestamp oracle, channel capacity, block size > 0, schedule,
+   options and list of files:
+     domain      every file chronological (C03 binary search, C01 closed form), every message
+                 >= 2 bytes (C03), dt_beg <= dt_end (C13)
+     gate_passed stage 1 (block-zero analysis) accepts every file AT THIS block size (C12: F3a-c)
+     complete    the schedule is an execution of the coordinator that ends with every channel closed
+   the code-level program prints exactly the specification and tallies exactly its measures *)
+Theorem C01_program_correct : forall dated dtspan cap bs sched o files,
+  (0 < bs)%N -> domain dated dtspan files -> gate_passed dated bs files ->
+  complete dated dtspan cap o files sched ->
+  program_m dated dtspan cap bs sched o files = POk (program_spec dated dtspan o files).
+Proof. exact program_correct. Qed.
+Print Assumptions C01_program_correct.
+
+(* the specification is the print-site model run on the SPEC events (so every C13 / C19 theorem
+   about Summary.run speaks about program_spec) ... *)
+Theorem C01_program_spec_is_run : forall dated dtspan, span_ok dtspan -> forall o files,
+  let R := Summary.run (op_cli o) (sources_of files) (spec_events dated dtspan o files) in
+  program_spec dated dtspan o files = (Summary.k_stdout R, Summary.k_total R).
+Proof. exact spec_is_run. Qed.
+Print Assumptions C01_program_spec_is_run.
+
+(* ... and with --color never it is plain bytes: per message, per line, file field ++ date field ++
+   line; then the separator; then one newline when the file's last message lacks it *)
+Theorem C01_program_spec_plain : forall dated dtspan o files,
+  span_ok dtspan -> Summary.c_colour (op_cli o) = false ->
+  let c := op_cli o in
+  let evs := spec_events dated dtspan o files in
+  fst (program_spec dated dtspan o files) =
+  Print.obs (render_bytes c (Summary.popt_of c (sources_of files) evs) evs).
+Proof. exact spec_stdout_plain. Qed.
+Print Assumptions C01_program_spec_plain.
+
+(* C12 at program level: block-size independence of the WHOLE output, for the block sizes at which
+   stage 1 accepts the files *)
+Theorem C01_program_bs_independent : forall dated dtspan cap bs1 bs2 sched o files,
+  (0 < bs1)%N -> (0 < bs2)%N -> domain dated dtspan files ->
+  gate_passed dated bs1 files -> gate_passed dated bs2 files ->
+  complete dated dtspan cap o files sched ->
+  program_m dated dtspan cap bs1 sched o files = program_m dated dtspan cap bs2 sched o files.
+Proof. exact program_bs_independent. Qed.
+Print Assumptions C01_program_bs_independent.
+
+(* C19 at program level: the totals are measures of the output *)
+Theorem C01_program_total_bytes : forall dated dtspan, span_ok dtspan -> forall o files,
+  Summary.c_summary (op_cli o) = true ->
+  let r := program_spec dated dtspan o files in
+  Summary.u_bytes (snd r) = Print.blen (Print.payload (fst r)) /\
+  (Summary.c_colour (op_cli o) = false -> forall g, Summary.u_bytes (snd r) = Print.blen (Print.concr g (fst r))).
+Proof. exact program_total_bytes. Qed.
+Print Assumptions C01_program_total_bytes.
+
+Theorem C01_program_counters : forall dated dtspan o files, Summary.c_summary (op_cli o) = true ->
+  let evs := spec_events dated dtspan o files in
+  let t := snd (program_spec dated dtspan o files) in
+  Summary.u_sys t = N.of_nat (length evs) /\
+  Summary.u_lines t = N.of_nat (length (concat (map (fun e => Print.m_lines (Summary.e_msg e)) evs))) /\
+  Summary.u_fixed t = 0%N /\ Summary.u_evtx t = 0%N /\ Summary.u_journal t = 0%N /\
+  SummaryProofs.is_min (Summary.u_first t) (map ev_t evs) /\
+  SummaryProofs.is_max (Summary.u_last t) (map ev_t evs).
+Proof. exact program_counters. Qed.
+Print Assumptions C01_program_counters.
+
+(* C13 at program level: deleting the file field, the date field and the separator from the
+   decorated output leaves the output of the undecorated invocation; with colour on, after
+   deleting the SGR sequences *)
+Theorem C01_program_strip : forall dated dtspan, span_ok dtspan -> forall o files,
+  let c := op_cli o in
+  let evs := spec_events dated dtspan o files in
+  Print.strip_msgs (Summary.shape_of c (Summary.popt_of c (sources_of files) evs) evs)
+                   (Print.payload (fst (program_spec dated dtspan o files)))
+  = Some (Print.payload (fst (program_spec dated dtspan (undecorated_opts o) files))).
+Proof. exact program_strip. Qed.
+Print Assumptions C01_program_strip.
+
+Theorem C01_program_strip_sgr : forall dated dtspan o files g, PrintStrip.sgr_ok g ->
+  PrintStrip.no_esc (Print.payload (fst (program_spec dated dtspan o files))) ->
+  Print.strip_sgr (Print.concr g (fst (program_spec dated dtspan o files))) =
+  Print.payload (fst (program_spec dated dtspan o files)).
+Proof. exact program_strip_sgr. Qed.
+Print Assumptions C01_program_strip_sgr.
+
+(* the same identities for what the CODE-LEVEL model prints, at any block size under any complete schedule *)
+Theorem C01_program_m_totals : forall dated dtspan cap bs sched o files out tot,
+  (0 < bs)%N -> domain dated dtspan files -> gate_passed dated bs files ->
+  complete dated dtspan cap o files sched ->
+  program_m dated dtspan cap bs sched o files = POk (out, tot) ->
+  Summary.c_summary (op_cli o) = true ->
+  Summary.u_bytes tot = Print.blen (Print.payload out) /\
+  (Summary.c_colour (op_cli o) = false -> forall g, Summary.u_bytes tot = Print.blen (Print.concr g out)) /\
+  Summary.u_sys tot = N.of_nat (length (spec_events dated dtspan o files)).
+Proof. exact program_m_totals. Qed.
+Print Assumptions C01_program_m_totals.
+
+Theorem C01_program_m_strip : forall dated dtspan cap bs sched sched0 o files out tot out0 tot0,
+  (0 < bs)%N -> domain dated dtspan files -> gate_passed dated bs files ->
+  complete dated dtspan cap o files sched ->
+  complete dated dtspan cap (undecorated_opts o) files sched0 ->
+  program_m dated dtspan cap bs sched o files = POk (out, tot) ->
+  program_m dated dtspan cap bs sched0 (undecorated_opts o) files = POk (out0, tot0) ->
+  let c := op_cli o in
+  let evs := spec_events dated dtspan o files in
+  Print.strip_msgs (Summary.shape_of c (Summary.popt_of c (sources_of files) evs) evs) (Print.payload out)
+  = Some (Print.payload out0).
+Proof. exact program_m_strip. Qed.
+Print Assumptions C01_program_m_strip.
+
+(* ---- the ADAPTER lemmas (where the component models meet) ---- *)
+
+(* A1, reader -> search: the block-wise reader of C02, observed through (begin, length, instant),
+   IS the `find` oracle that Model/Search.v (C03) defines from the layout of the file's spec
+   groups — at every offset, for every block size; and what it returns is the spec group at that
+   offset, every Line assembled from non-empty parts *)
+Theorem C01_adapter_reader_is_find : forall dated bs (f : Chunk.file) fo, (0 < bs)%N ->
+  Forall (fun g => (1 <= glen g)%N) (LinesSpec.syslines dated f) ->
+  frel rmsg r_sl (Pm dated bs f) (reader_find dated bs f fo) (Search.find (gs_of dated f) fo).
+Proof. exact reader_find_rel. Qed.
+Print Assumptions C01_adapter_reader_is_find.
+
+(* a file WITHOUT any dated line: the reader is Done at every offset — not Panic, not OutOfFuel
+   (C02's find_sysline_correct equates observations in which all three read None) *)
+Theorem C01_adapter_reader_no_message : forall dated bs (f : Chunk.file) fo, (0 < bs)%N ->
+  LinesSpec.syslines dated f = [] -> Syslines.find_sysline_m dated bs f fo = Lines.Done.
+Proof. exact find_sysline_no_message. Qed.
+Print Assumptions C01_adapter_reader_no_message.
+
+(* the search loop run against ANY find that agrees with Search.find returns what Model/Search.v
+   returns (the payloads it hands on satisfy whatever invariant P the find guarantees) *)
+Theorem C01_adapter_gsearch_refines : forall (M : Type) (view : M -> Search.sl) (gfind : N -> gfres M)
+    (P : M -> Prop) (gs : list Search.sl) (filesz : N),
+  (forall fo, frel M view P (gfind fo) (Search.find gs fo)) ->
+  (forall a fo, Search.linear gs a fo (Search.lfuel gs) <> Search.SOutOfFuel) ->
+  (Search.lfuel gs <= g_lfuel filesz)%nat ->
+  forall streamed a b out,
+  Search.text_out gs filesz streamed a b = (out, Search.Ok) ->
+  exists ms, g_text_out view gfind filesz streamed a b = (ms, GOk) /\
+             map (fun mb => view (fst mb)) ms = out /\
+             Forall (fun mb => P (fst mb) /\ snd mb = g_is_last view filesz (fst mb)) ms.
+Proof. exact gsearch_refines. Qed.
+Print Assumptions C01_adapter_gsearch_refines.
+
+(* one worker: the NewMessage datums of a file are its windowed spec groups with their is-last flags *)
+Theorem C01_adapter_worker_stream : forall dated bs (f : Chunk.file) streamed a b, (0 < bs)%N ->
+  file_chronological dated f -> file_msgs_2bytes dated f ->
+  exists ms, g_text_out r_sl (reader_find dated bs f) (Chunk.lenN f) streamed a b = (ms, GOk) /\
+    map (fun mb : rmsg * bool => (SyslinesProofs.obs_sysline bs f (r_sys (fst mb)), snd mb)) ms
+      = spec_file_msgs dated a b f /\
+    Forall (fun mb : rmsg * bool => Forall (line_parts_ok bs f) (snd (r_sys (fst mb))) /\ snd (r_sys (fst mb)) <> []) ms.
+Proof. exact worker_stream. Qed.
+Print Assumptions C01_adapter_worker_stream.
+
+(* A2/A3, worker -> coordinator -> print site: the tags the merge emits, looked up, are the stable
+   sort by instant of the events themselves *)
+Theorem C01_adapter_printed_events : forall EC,
+  map (ev_of EC) (stable_sort (concat (tags_of EC))) = stable_sort_by ev_t (concat EC).
+Proof. exact printed_events. Qed.
+Print Assumptions C01_adapter_printed_events.
+
+(* A3, reader -> printer: a Sysline as line parts and its spec group as whole lines are the same
+   message for the printer, and both satisfy its preconditions *)
+Theorem C01_adapter_pmsg_sim : forall dtspan, span_ok dtspan -> forall bs (f : Chunk.file) sl,
+  Forall (line_parts_ok bs f) (snd sl) -> snd sl <> [] ->
+  msg_sim (pmsg_of dtspan bs f sl) (spec_msg dtspan (SyslinesProofs.obs_sysline bs f sl)).
+Proof. exact pmsg_sim. Qed.
+Print Assumptions C01_adapter_pmsg_sim.
+
+(* the print site (variant dispatch, buffer, separator, newline, accounting) on such events = the
+   canonical rendering and the measures of the spec events *)
+Theorem C01_adapter_print_site : forall c srcs evs1 evs2, Forall2 ev_sim evs1 evs2 ->
+  Summary.k_stdout (Summary.run c srcs evs1) = render c (Summary.popt_of c srcs evs2) (fun _ => None) evs2 /\
+  Summary.k_total (Summary.run c srcs evs1) = spec_totals c evs2 (Summary.k_stdout (Summary.run c srcs evs1)).
+Proof. exact (fun c srcs evs1 evs2 S => conj (run_stdout_sim c srcs evs1 evs2 S) (run_totals_sim c srcs evs1 evs2 S)). Qed.
+Print Assumptions C01_adapter_print_site.
+
+(* ---- the hypotheses are satisfiable: three files (plain, streamed, plain; one multi-line message;
+   one file without final newline), ties across all three files and inside one, a window that
+   cuts every file, -n -w, a date field, a separator, --summary; block sizes 3 and 64; two
+   different complete schedules (capacity 1 lazy workers, capacity 5 eager workers) ---- *)
+Example C01_program_example_domain :
+  domain dated_ex dtspan_ex files_ex /\
+  gate_passed dated_ex 3 files_ex /\ gate_passed dated_ex 64 files_ex /\
+  complete dated_ex dtspan_ex 1 opts_ex files_ex sched_lazy /\
+  complete dated_ex dtspan_ex 5 opts_ex files_ex sched_eager /\
+  sched_lazy <> sched_eager.
+Proof. exact ex_domain. Qed.
+Print Assumptions C01_program_example_domain.
+
+Example C01_program_example :
+  program_m dated_ex dtspan_ex 1 3 sched_lazy opts_ex files_ex = POk (program_spec dated_ex dtspan_ex opts_ex files_ex) /\
+  program_m dated_ex dtspan_ex 5 64 sched_eager opts_ex files_ex = POk (program_spec dated_ex dtspan_ex opts_ex files_ex) /\
+  fst (program_spec dated_ex dtspan_ex opts_ex files_ex) = Print.obs expected_ex /\
+  let t := snd (program_spec dated_ex dtspan_ex opts_ex files_ex) in
+  Summary.u_bytes t = 68%N /\ Summary.u_lines t = 7%N /\ Summary.u_sys t = 6%N /\
+  Summary.u_first t = Some 2000000000%Z /\ Summary.u_last t = Some 4000000000%Z.
+Proof. exact ex_program. Qed.
+Print Assumptions C01_program_example.
+
+(* a file that stage 1 rejects sends no message: outside gate_passed *)
+Example C01_program_example_gate_rejects :
+  Gate.gate dated_ex 64 f_small = Gate.FileErrTooSmall /\
+  exists out t, program_m dated_ex dtspan_ex 1 64 [Coord.Send 0; Coord.Recv 0; Coord.Send 0; Coord.Recv 0]
+                          (mkOptions cli_ex None None) files_small = POk (out, t) /\ out = [].
+Proof. exact ex_gate_rejects. Qed.
+Print Assumptions C01_program_example_gate_rejects.
+
+(* ---- the hypotheses are NEEDED (the composition theorem is not true without them) ---- *)
+(* `chronological`: a file with instants 3, 1, 2 (every other hypothesis holds): the program prints
+   file order, the specification the sorted order *)
+Theorem C01_program_unsorted_refuted :
+  (file_chronological dated_ex f_uns -> False) /\
+  span_ok dtspan_ex /\ file_msgs_2bytes dated_ex f_uns /\ gate_passed dated_ex 64 files_uns /\
+  complete dated_ex dtspan_ex 1 opts_plain files_uns sched_uns /\
+  exists out t, program_m dated_ex dtspan_ex 1 64 sched_uns opts_plain files_uns = POk (out, t) /\
+                Print.payload out = f_uns /\
+                Print.payload (fst (program_spec dated_ex dtspan_ex opts_plain files_uns)) = sorted_uns /\
+                program_m dated_ex dtspan_ex 1 64 sched_uns opts_plain files_uns
+                <> POk (program_spec dated_ex dtspan_ex opts_plain files_uns).
+Proof. exact (conj ex_chronological_needed ex_unsorted_refuted). Qed.
+Print Assumptions C01_program_unsorted_refuted.
+
+(* `gate_passed`: a 3-byte file is in the domain, its message is in the specification, stage 1
+   rejects it at block size 64 (FileErrTooSmall) and the program prints nothing *)
+Theorem C01_program_gate_needed :
+  domain dated_ex dtspan_ex files_small /\
+  Gate.gate dated_ex 64 f_small <> Gate.FileOk /\
+  complete dated_ex dtspan_ex 1 (mkOptions cli_ex None None) files_small
+           [Coord.Send 0; Coord.Recv 0; Coord.Send 0; Coord.Recv 0; Coord.Print; Coord.Send 0; Coord.Recv 0] /\
+  length (spec_events dated_ex dtspan_ex (mkOptions cli_ex None None) files_small) = 1%nat /\
+  program_m dated_ex dtspan_ex 1 64 [Coord.Send 0; Coord.Recv 0; Coord.Send 0; Coord.Recv 0]
+            (mkOptions cli_ex None None) files_small <> POk (program_spec dated_ex dtspan_ex (mkOptions cli_ex None None) files_small).
+Proof. exact ex_gate_needed. Qed.
+Print Assumptions C01_program_gate_needed.
+
+(* `every message >= 2 bytes`: with a 1-byte message before another (an oracle that dates an empty
+   line) the binary search returns the too-early message and the worker takes the
+   "BeforeRange ... unexpected" error exit, under every schedule; the specification prints the
+   later message (C03_bsearch_len1_refuted, at program level) *)
+Theorem C01_program_len1_refuted :
+  file_chronological dated_nl f_len1 /\ span_ok dtspan_ex /\ gate_passed dated_nl 64 files_len1 /\
+  (file_msgs_2bytes dated_nl f_len1 -> False) /\
+  Print.payload (fst (program_spec dated_nl dtspan_ex opts_len1 files_len1)) = len1_expected /\
+  forall sched, program_m dated_nl dtspan_ex 1 64 sched opts_len1 files_len1 = PWorker 0 (GErr 3).
+Proof. exact ex_len1_refuted. Qed.
+Print Assumptions C01_program_len1_refuted.
